@@ -148,7 +148,7 @@ Definition t_actor (s : state) (a : aid) : tm :=
           TN (N.of_nat (length (a_sq x))); TN (N.of_nat (length (a_uq x))); TN (N.of_nat (length (a_stash x)));
           tlist t_path (sort_paths (map fst (a_children x)));
           tlist t_path (sort_paths (map fst (a_watchers x)));
-          tlist TN (a_modes x); TN (a_inst x);
+          TN (N.of_nat (length (a_modes x))); TN (a_inst x);
           tbool (match alookup (reg s) (a_path x) with Some y => Nat.eqb y a | None => false end)]
   end.
 
